@@ -285,9 +285,48 @@ class C08(Prop):
         arithmetic: tau_j = -4 + j/ratio, constant ratio)."""
         out = []
         sig = h.meta.get("sig", "")
+        from fractions import Fraction
+        # (a) for EVERY signal: each output frame must be the unique polynomial through the 8/6/4/2 input samples nearest
+        # to its instant (Nearest: the sample at or just before it), computed here independently in exact arithmetic
+        first = True
+        for k, slot, name, t, fr, fm, info, gb in walk(h):
+            if name == "new":
+                ratio_ = Fraction(info.orig)
+                jj = 0
+                deg_ = int(info.p[2])
+                off_, width_ = {0: (3, 8), 1: (2, 6), 2: (1, 4), 3: (0, 2), 4: (0, 1)}[deg_]
+                continue
+            if name != "proc" or not fr["status"].startswith("ok") or not fr["d"]:
+                continue
+            vals = proto.decode_dump(fr["d"][0], info.ty)
+            if vals is None:
+                continue
+            for n_, v in enumerate(vals):
+                jj += 1
+                if n_ >= 24 and n_ < len(vals) - 4:
+                    continue          # check the frames around the chunk boundaries, where the history is stitched
+                tau = Fraction(-4) + Fraction(jj) / ratio_
+                fl = math.floor(tau)
+                xs = [fl - off_ + m for m in range(width_)]
+                ys = []
+                for g in xs:
+                    val = 0.0 if g < 0 else sig_value(sig, 0, g)
+                    if info.ty == "f32":
+                        import struct as _st
+                        val = _st.unpack("<f", _st.pack("<f", val))[0]
+                    ys.append(Fraction(val))
+                want = ys[0] if width_ == 1 else lagrange_at([Fraction(x) for x in xs], ys, tau)
+                scale = max([1.0] + [abs(float(y)) for y in ys])
+                eps = 2.0 ** -18 if info.ty == "f32" else 2.0 ** -40
+                # ties of the Nearest kernel: an instant that is (numerically) an integer may legitimately fall either way
+                if width_ == 1 and abs(tau - round(tau)) < Fraction(1, 10 ** 6):
+                    continue
+                if abs(Fraction(v) - want) > eps * 40 * scale:
+                    out.append(viol("C08", h, k, info, "not-the-interpolant-through-the-nearest-samples",
+                                    {"frame": jj, "tau": float(tau), "got": v, "want": float(want), "window": xs}))
+                    return out
         if not sig.startswith("p"):
             return out
-        from fractions import Fraction
         pd, seed = sig[1:].split(",")
         pd, seed = int(pd), int(seed)
         coeffs = [poly_coeff(seed, k) for k in range(pd + 1)]
@@ -326,6 +365,43 @@ class C08(Prop):
                 checked += 1
         h.meta["checked_frames"] = checked
         return out
+
+
+def sig_value(sig, ch, g):
+    """Python twin of harness/src/signal.rs (same float operations in the same order)"""
+    M = 0xFFFFFFFFFFFFFFFF
+    K1, K2 = 0x9E3779B97F4A7C15, 0xC2B2AE3D27D4EB4F
+    h, t = sig[0], sig[1:]
+    if h == "z":
+        return 0.0
+    if h == "i":
+        return float(g) + 0.25 * float(ch)
+    if h == "r":
+        hh = splitmix64(int(t) ^ ((ch * K1) & M) ^ ((g * K2) & M))
+        return float(hh >> 11) * (1.0 / 4503599627370496.0) - 1.0
+    if h == "p":
+        d, sd = t.split(",")
+        d, sd = int(d), int(sd)
+        u = float(g) * 0.015625
+        acc = 0.0
+        for k in range(d, -1, -1):
+            acc = acc * u + float(poly_coeff(sd, k))
+        return acc + float(ch)
+    if h == "k":
+        return 1.0 if g == int(t) else 0.0
+    raise ValueError(sig)
+
+
+def lagrange_at(xs, ys, x):
+    from fractions import Fraction
+    tot = Fraction(0)
+    for j, (xj, yj) in enumerate(zip(xs, ys)):
+        w = Fraction(1)
+        for m, xm in enumerate(xs):
+            if m != j:
+                w *= (x - xm) / (xj - xm)
+        tot += yj * w
+    return tot
 
 
 def poly_coeff(seed, k):
@@ -723,9 +799,16 @@ class C16(Prop):
                 dy = " dyn" if rng.random() < 0.3 else ""
                 if c < 0.3:
                     a, b, f = f"procw {mask} n {sg}{dy}", f"proc {mask} n n {sg}", "process"
-                elif c < 0.5:
+                elif c < 0.4:
                     k = rng.randint(0, 6)
-                    a, b, f = f"part {mask} p{k} m {sg}{dy}", f"proc {mask} n m {sg} zl=p{k}", "partial-some"
+                    em = " em" if mask != "-" and rng.random() < 0.6 else ""
+                    a, b, f = f"part {mask} p{k} m {sg}{dy}{em}", f"proc {mask} n m {sg} zl=p{k}{em}", "partial-some"
+                elif c < 0.5:
+                    # channels of different lengths (absolute lengths 1..7, clipped to input_frames_next by the wrapper)
+                    lens = [rng.randint(1, 7) for _ in range(cfg.nch)]
+                    si = " ".join(f"si={ch}:{l}" for ch, l in enumerate(lens))
+                    zc = " ".join(f"zc={ch}:{l}" for ch, l in enumerate(lens))
+                    a, b, f = f"part {mask} n m {sg} {si}{dy}", f"proc {mask} n m {sg} {zc}", "partial-ragged"
                 elif c < 0.62:
                     a, b, f = f"part {mask} none m {sg}{dy}", f"proc {mask} n m z", "partial-none"
                 elif c < 0.74:
@@ -753,7 +836,7 @@ class C16(Prop):
 
     def nontrivial(self, h):
         f = set(h.meta["feats"])
-        return bool(f & {"partial-some", "process_partial", "masked"})
+        return bool(f & {"partial-some", "partial-ragged", "process_partial", "masked"})
 
     def oracle(self, h):
         out = []
